@@ -3,6 +3,7 @@ import datetime as pydt
 import itertools
 import json
 import os
+import re
 import string
 import types
 import _string
@@ -343,10 +344,13 @@ class Impl:
         except ValueError:
             pass
 
-    def message(self, t, args, kwargs, colors=False, record=False):
+    def message(self, t, args, kwargs, colors=False, record=False, lazy=False):
         """record["message"] of logger.info(t, *args, **kwargs), or the exception class"""
         self.got.clear()
-        log = self.logger.opt(colors=colors, record=record) if (colors or record) else self.logger
+        log = self.logger.opt(colors=colors, record=record, lazy=lazy) if (colors or record or lazy) else self.logger
+        if lazy:
+            args = [(lambda v=v: v) for v in args]
+            kwargs = {k: (lambda v=v: v) for k, v in kwargs.items()}
         try:
             log.info(t, *args, **kwargs)
         except Exception as e:  # noqa
@@ -355,6 +359,20 @@ class Impl:
             return ("err", "nothing-emitted")
         m = self.got[0]
         return ("ok", m.record["message"])
+
+    def call(self, msg, args, kwargs, opts, bind=None):
+        """one logging call with opt(**opts): ('ok', record) or ('err', kind); the record is the one the sink received"""
+        self.got.clear()
+        log = self.logger.bind(**bind) if bind else self.logger
+        if opts:
+            log = log.opt(**opts)
+        try:
+            log.info(msg, *args, **kwargs)
+        except Exception as e:  # noqa
+            return ("err", core.err_kind(e))
+        if len(self.got) != 1:
+            return ("err", "nothing-emitted")
+        return ("ok", self.got[0].record)
 
     def prepare_format(self, t):
         return res_of(lambda: self.Colorizer.prepare_format(t).strip())
@@ -401,21 +419,65 @@ class Pt:
         return "P(%s)" % spec
 
 
+class FmtStr(str):
+    """a str SUBCLASS argument with its own __format__/__str__/__repr__: no shortcut through the character data is correct"""
+    def __format__(self, spec):
+        return "F(%s|%s)" % (str.__str__(self), spec)
+
+    def __str__(self):
+        return "S!" + str.__str__(self)
+
+    def __repr__(self):
+        return "R!" + str.__str__(self)
+
+
+class FmtInt(int):
+    def __format__(self, spec):
+        return FmtStr("I%d:%s" % (int(self), spec))      # __format__ returning an instance of a str subclass
+
+
+class Dyn:
+    """attribute and item access computed on the fly; format() differs from str()"""
+    def __getattr__(self, n):
+        if n.startswith("_") or n == "zz":
+            raise AttributeError(n)
+        return FmtStr("attr-" + n)
+
+    def __getitem__(self, k):
+        if k in ("nokey", 9, "9"):
+            raise KeyError(k)
+        return FmtInt(len(str(k)))
+
+    def __format__(self, spec):
+        if spec == "boom":
+            raise ZeroDivisionError(spec)
+        return "D<%s>" % spec
+
+    def __str__(self):
+        return "str(Dyn)"
+
+    def __repr__(self):
+        return "repr(Dyn)"
+
+
 VALUES = [
     ("int", [0, 7, -3, 255, 1234]), ("float", [3.14159, 0.0, 250.0, -2.5]), ("str", ["abc", "", "é{x}", "a b", "<r>"]),
     ("list", [[1, 2, 3], ["a", "b"]]), ("dict", [{"k": 5, "a b": "z", "0": "s0", 0: "i0"}]),
     ("dt", [pydt.datetime(2020, 1, 2, 3, 4, 5)]), ("obj", [Pt()]), ("none", [None]), ("bool", [True]),
+    ("strsub", [FmtStr("abc"), FmtStr("")]), ("intsub", [FmtInt(7)]), ("dyn", [Dyn()]),
 ]
 ACC = {"int": [".real", ".imag", ".numerator"], "float": [".real"], "str": ["[0]", ".missing"], "list": ["[0]", "[1]", "[9]"],
        "dict": ["[k]", "[a b]", "[0]", "[nokey]"], "dt": [".year", ".month"], "obj": [".a", ".b.c", ".b.d[1]", ".zz"],
-       "none": [".x"], "bool": [".real"]}
+       "none": [".x"], "bool": [".real"], "strsub": ["[0]", ".missing"], "intsub": [".real", ".numerator"],
+       "dyn": [".a", ".b.c", "[k]", "[0]", "[nokey]", ".zz", "[k].real"]}
 SPEC = {"int": ["", "05d", "x", "+", ",", ">6", "08.3f", "s", "{w}", ">{w}", "0{w}d", "<>6", "><{w}", "<<4"],
         "float": ["", ".2f", "e", "10.3", "{w}.{p}f", "d", "<>9.1f"],
         "str": ["", ">8", "^10", ".2", "*<6", "{w}", "d", "^{w}", "<>8", "><8", "<>{w}", "<b>", "/>7"],
         "list": ["", ">12", "d"], "dict": ["", "<30"],
         "dt": ["", "%Y", "%H:%M", "{{%Y}}", "{w}", "%H<b>%M</b>", "<%Y>", "\\<b>%d", "<red>%S</red>", "</>%j"],
         "obj": ["", "q", "{w}", "{{z}}", "{w:{{}}}", "<b>", "</b>", "\\<b>", "<red>x</red>", "</>", "<{w}>", "<nosuchtag>"],
-        "none": ["", ">6"], "bool": ["", "d", ">6"]}
+        "none": ["", ">6"], "bool": ["", "d", ">6"], "strsub": ["", ">8", "q", "{w}", "<>8"], "intsub": ["", "05d", "{w}"],
+        "dyn": ["", "q", "boom", "{w}", "<b>", "{{z}}"]}
 
 
 def gen_real_case(rng):
@@ -571,6 +633,123 @@ def gen_markup_format(rng):
     return "".join(with_m), "".join(plain)
 
 
+# ----------------------------------------------------------------------------- round 5: histories and emit decisions
+SYMKEYS = ["name", "function", "module", "file", "line", "process", "thread", "time", "elapsed", "extra"]
+ANSI_RE = re.compile("\x1b\\[[0-9;]*m")
+TAG_RE = re.compile(r"</?[a-z]+>")
+
+
+def run_dynseq(impl, seq):
+    """log len(seq) records through ONE handler whose format function returns seq[j] for the j-th record"""
+    pos, out = [0], []
+
+    def patch(r):
+        for k in SYMKEYS:
+            r[k] = Sym(k)
+
+    def fmt(record):
+        return seq[pos[0]]
+    hid = impl.logger.add(out.append, format=fmt, colorize=False, catch=False, level=0)
+    got = []
+    try:
+        log = impl.logger.patch(patch)
+        for j in range(len(seq)):
+            pos[0] = j
+            del out[:]
+            try:
+                log.info("msg")
+                got.append(("ok", str(out[0])) if len(out) == 1 else ("err", "nothing-emitted"))
+            except Exception as e:  # noqa
+                got.append(("err", core.err_kind(e)))
+    finally:
+        impl.logger.remove(hid)
+    return got
+
+
+def judge_dynseq(seq, got):
+    """first record whose text is not Python's format_map of its own template: (index, python result) or None"""
+    env = {k: Sym(k) for k in SYMKEYS}
+    env["exception"] = ExcSym("exception")
+    env["message"], env["level"] = "msg", "L"
+    for j, (t, g) in enumerate(zip(seq, got)):
+        py = res_of(lambda: t.format_map(env))
+        if not same_failure(g, py, t):
+            return j, py
+    return None
+
+
+def gen_emitfull(rng):
+    c = {"raw": rng.chance(50), "dynamic": rng.chance(40), "colorize": rng.chance(60), "colors": rng.chance(65),
+         "patch": rng.choice(["none", "none", "same", "other", "samelen"]), "level": rng.choice(["INFO", "INFO", "C05LVL", 27, "WARNING"]),
+         "late": rng.chance(30)}
+    c["body"] = rng.choice(["he<red>ll</red>o {}", "<b>{}</b>", "<level>x{}</level>y", "plain {}", "a {} <green>b</green> {{"]) \
+        if c["colors"] else rng.choice(["hello {}", "a{{b {}", "x < y {}"])
+    c["arg"] = rng.choice([5, "v", 2.5])
+    fmt = rng.choice(["{message}|{level.name}", "[{level.name}] {message}", "<green>{level.name}</green> <level>{message}</level>",
+                      "{message}", "{level.no} {message:>3}"])
+    if not c["colorize"] and "<" in fmt:
+        fmt = "{message}|{level.name}"
+    if c["colorize"] and c["colors"] and ":" in fmt:
+        fmt = "{level.no} {message}"      # a spec on a coloured {message} is finding F10 (area Markup / C06)
+    c["format"] = fmt
+    return c
+
+
+def run_emitfull(impl, c):
+    """one call through one handler; returns (result, expected visible text, record message, violation text | None).
+    Model-free oracle: raw => the visible text IS record["message"]; otherwise Python's format_map of the
+    markup-free format over (message, level); no ANSI code without colorize, none for a replaced message in raw mode"""
+    try:
+        impl.logger.level("C05LVL", no=33, color="<blue>", icon="@")
+    except (TypeError, ValueError):
+        pass
+    out = []
+    level = c["level"]
+    plain = TAG_RE.sub("", c["body"]).format(c["arg"]) if c["colors"] else c["body"].format(c["arg"])
+    fmt = c["format"]
+
+    def patch(r):
+        if c["patch"] == "same":
+            r["message"] = str(r["message"])
+        elif c["patch"] == "other":
+            r["message"] = "patched"
+        elif c["patch"] == "samelen":
+            r["message"] = "#" * len(r["message"])      # another text of the SAME length
+    hid = impl.logger.add(out.append, format=(lambda r: fmt) if c["dynamic"] else fmt, colorize=c["colorize"], catch=False, level=0)
+    try:
+        if c["late"]:
+            try:
+                impl.logger.level("C05LATE", no=34, color="<yellow>")   # a level the handler has not seen at add()
+            except (TypeError, ValueError):
+                pass
+            if level == "C05LVL":
+                level = "C05LATE"
+        log = impl.logger.opt(colors=c["colors"], raw=c["raw"]).patch(patch)
+        try:
+            log.log(level, c["body"], c["arg"])
+            got = ("ok", str(out[0])) if len(out) == 1 else ("err", "nothing-emitted")
+        except Exception as e:  # noqa
+            got = ("err", core.err_kind(e))
+    finally:
+        impl.logger.remove(hid)
+    recmsg = "patched" if c["patch"] == "other" else ("#" * len(plain) if c["patch"] == "samelen" else plain)
+    lname = level if isinstance(level, str) else "Level %d" % level
+    lno = {"INFO": 20, "WARNING": 30, "C05LVL": 33, "C05LATE": 34}.get(level, level)
+    pyfmt = TAG_RE.sub("", fmt) if c["colorize"] else fmt
+    exp = recmsg if c["raw"] else pyfmt.format_map({"message": recmsg, "level": types.SimpleNamespace(name=lname, no=lno)}) + \
+        ("" if c["dynamic"] else "\n")
+    vis = ANSI_RE.sub("", got[1]) if got[0] == "ok" else None
+    bad = None
+    where = "opt(colors=%r, raw=%r).log(%r, %r, %r) through a %s handler (colorize=%r, format %r), patcher: %s" % (
+        c["colors"], c["raw"], level, c["body"], c["arg"], "dynamic" if c["dynamic"] else "static", c["colorize"], fmt, c["patch"])
+    if got[0] != "ok" or vis != exp:
+        bad = "%s: visible text %r, expected %r" % (where, vis if got[0] == "ok" else got, exp)
+    elif (not c["colorize"] or (c["patch"] in ("other", "samelen") and c["raw"])) and "\x1b" in got[1]:
+        bad = "%s: ANSI codes emitted %s: %r" % (where, "by a handler with colorize=False" if not c["colorize"] else
+                                                 "for a message a patcher replaced (stale coloured message)", got[1])
+    return got, exp, recmsg, bad
+
+
 # ----------------------------------------------------------------------------- checks
 def check_message(ctx, impl, t, args, kwargs, stream, colors):
     """direct oracle: record["message"] == t.format(*args, **kwargs) (or same exception class)"""
@@ -636,6 +815,82 @@ def check_emit(ctx, impl, extra, t, dynamic, colorize, raw, msg, margs):
     return got
 
 
+class StrSub(str):
+    """a message that is an instance of a str subclass: str(message) is NOT its character data"""
+    def __str__(self):
+        return "str-of-message"
+
+
+RECORD_NAMES = ["record[extra][q]", "record[extra][q].b", "record[extra][q][0]", "record[extra][q]!r", "record[extra][xno]",
+                "record[xno]", "record[extra][q]:>{}", "record[extra][q]:{record[extra][q]}"]
+
+
+def gen_logcall(rng):
+    """one logging call over the symbolic universe with a rare-option combination:
+    (template, nargs, kws, opts, failing lazy argument | None, message is a str-subclass instance)"""
+    nargs = rng.range(0, 3)
+    kws = [k for k in ["a", "b", "w"] if rng.chance(45)]
+    opts = {"lazy": rng.chance(40), "capture": not rng.chance(30), "record": rng.chance(35), "colors": rng.chance(35)}
+    if opts["record"] and rng.chance(12):
+        kws.append("record")                     # the caller's own keyword named like the record: TypeError
+    mode = rng.choice(["auto", "manual", "named", "mixed"])
+    k = rng.below(10)
+    if k < 2:
+        t = rng.choice(["", "plain", "a{", "}", "{{}}", "{", "a {} b", "é"])
+    elif k < 9:
+        t = gen_template(rng, mode, kws or ["a"], nargs, maxdepth=2, lits=[l for l in LITS if "<" not in l])
+    else:
+        t = gen_adversarial(rng)
+    if opts["record"] and rng.chance(60):
+        nm = rng.choice(RECORD_NAMES)
+        i = rng.below(len(t) + 1) if rng.chance(30) else len(t)
+        t = t[:i] + "{" + nm + "}" + t[i:]
+    t = markup_free_for_model(t.replace("!a", "!s"))
+    fail = None
+    if rng.chance(15):
+        pool = ["@%d" % j for j in range(nargs)] + [k for k in kws]
+        if pool:
+            fail = rng.choice(pool)
+    return t, nargs, kws, opts, fail, rng.chance(15)
+
+
+def run_logcall(impl, t, nargs, kws, opts, fail, sub):
+    """execute the call on the implementation: (result, trace of lazy calls, message object)"""
+    trace = []
+
+    def thunk(sym):
+        def f():
+            trace.append(sym)
+            if sym == fail:
+                raise KeyError(sym)
+            return Sym(sym)
+        return f
+    wrap = thunk if opts["lazy"] else Sym
+    args = [wrap("@%d" % j) for j in range(nargs)]
+    kwargs = {k: wrap(k) for k in kws}
+    msg = StrSub(t) if sub else t
+    got = impl.call(msg, args, kwargs, opts, bind={"q": Sym("record[extra][q]")})
+    return got, trace, msg
+
+
+def logcall_python(t, nargs, kws, opts, fail, msg, rec):
+    """what Python itself computes for the call (model-free): the arguments evaluated left to right, the
+    record as one more keyword, str.format on the message iff there is an argument, str(message) otherwise"""
+    order = ["@%d" % j for j in range(nargs)] + list(kws)
+    if opts["lazy"] and fail in order:
+        return ("err", "KeyError"), order[:order.index(fail) + 1]
+    forced = order if opts["lazy"] else []
+    if opts["record"] and "record" in kws:
+        return ("err", "TypeError"), forced
+    args = [Sym("@%d" % j) for j in range(nargs)]
+    kwargs = {k: Sym(k) for k in kws}
+    if opts["record"]:
+        kwargs["record"] = rec
+    if args or kwargs:
+        return res_of(lambda: str.format(msg, *args, **kwargs)), forced
+    return ("ok", str(msg)), forced
+
+
 def real_case_from_replay(r):
     """rebuild the arguments of a replay from the deterministic generator state"""
     rng = core.Rng(0)
@@ -681,6 +936,9 @@ def _run(ctx, rng, drv, boost, impl):
         ("{:{}} {}", [1, 5, 7], {}, True), ("{{{}}}", [1], {}, True), ("{!r:^7}", ["é"], {}, True),
         ("a{", [], {}, False), ("a{", [1], {}, False), ("{0[0]}{0[1]}", [[1, 2]], {}, True), ("{", [], {"k": 1}, True),
         ("{a[}]}", [], {"a": {"}": 3}}, True), ("{0!x}", [1], {}, True), ("{:{:{}}}", [1, 2, 3], {}, True),
+        # round 5: a third nesting level AFTER a failing lookup - Python raises the lookup error, so must the coloured call
+        # (colored_fails_like_python; outside the old guard `shallow`)
+        ("{a}{0:{0:{{%Y}}}}", [1], {}, True), ("{0.nope}{0:{0:{{}}}}", [1], {}, True), ("{5}{0:{0:{0}}}", [1], {}, True),
     ]
     for t, args, kwargs, colors in corpus:
         ctx.case(("corpus", t, colors), nontrivial=True)
@@ -830,6 +1088,54 @@ def _run(ctx, rng, drv, boost, impl):
         if i < 2:
             ctx.sample({"stream": "symbolic", "template": t, "nargs": nargs, "kwargs": kws, "python": list(py), "loguru_colored": list(col)})
 
+    # ---- stream 3b (round 5): whole logging calls with opt(lazy/capture/record/colors) combinations, a caller's
+    #      `record` keyword, failing lazy arguments, str-subclass messages: record["message"], the keys `capture`
+    #      adds to extra and the order of the lazy calls vs Format.logCall, and vs Python itself (direct oracle)
+    for i in range(ctx.n(1500, 40000) * boost):
+        state = rng.s
+        t, nargs, kws, opts, fail, sub = gen_logcall(rng)
+        if not ascii_only_digits(t):
+            continue
+        has_any = bool(nargs or kws or opts["record"])
+        if opts["colors"] and not has_any and "<" in t:
+            continue            # without arguments the whole message is colour markup (area Markup)
+        got, trace, msg = run_logcall(impl, t, nargs, kws, opts, fail, sub)
+        oname = "".join("1" if opts[k] else "0" for k in ("lazy", "capture", "record", "colors"))
+        ctx.case(("logcall", t, nargs, tuple(kws), oname, fail, sub), nontrivial=nontrivial(t) or opts["lazy"] or opts["record"])
+        ctx.stat("logcall:opts:" + oname)
+        if got[0] == "ok":
+            rec = got[1]
+            extra_new = [k for k in rec["extra"] if k != "q"]
+            shown = "ok %s %s %s" % (enc(rec["message"]), ",".join(["="] + [enc(k) for k in extra_new]),
+                                     ",".join(["="] + [enc(x) for x in trace]))
+            rec2 = dict(rec)
+            res = ("ok", rec["message"])
+        else:
+            shown, rec2, res, extra_new = "err " + got[1], {"extra": {"q": Sym("record[extra][q]")}}, got, None
+        ctx.stat("logcall:" + (got[0] if got[0] == "ok" else got[1]))
+        lines.append("call %s %d %s %s %s %s" % (oname, nargs, ",".join(enc(k) for k in kws) if kws else "-",
+                                                 enc(fail) if (fail and opts["lazy"]) else "-", enc(str(msg)), enc(t)))
+        expect.append(("Format.logCall", (t, nargs, kws, oname, fail, sub), shown))
+        py, forced = logcall_python(t, nargs, kws, opts, fail, msg, rec2)
+        bad = None
+        if res != py and not (opts["colors"] and has_any and res == formatter_vformat(
+                t, [Sym("@%d" % j) for j in range(nargs)],
+                dict({k: Sym(k) for k in kws}, **({"record": rec2} if opts["record"] else {}))) and f21_shape(t)):
+            bad = "record['message'] expected %r, observed %r" % (py, res)
+        elif got[0] == "ok" and trace != forced:
+            bad = "lazy arguments were called in the order %r, expected %r (each once, positional first)" % (trace, forced)
+        elif got[0] == "ok" and extra_new != ([k for k in kws] if (opts["capture"] and kws) else []):
+            bad = "extra received the keys %r (capture=%r, keywords %r)" % (extra_new, opts["capture"], kws)
+        elif got[0] == "ok" and opts["capture"] and any(getattr(rec["extra"][k], "_p", None) != k for k in kws):
+            bad = "extra does not hold the evaluated keyword arguments"
+        if bad:
+            ctx.violation("logger.opt(%s).info(%s%r, %d positional, keywords %r%s): %s"
+                          % (", ".join("%s=%r" % kv for kv in sorted(opts.items())), "StrSub " if sub else "", t, nargs, kws,
+                             ", lazy argument %s raises KeyError" % fail if fail else "", bad),
+                          {"stream": "logcall", "rng_state": state, "template": t, "expected": list(py), "observed": list(res)})
+        if i < 2:
+            ctx.sample({"stream": "logcall", "template": t, "opts": opts, "nargs": nargs, "kws": kws, "result": shown[:120]})
+
     # ---- stream 4: direct oracle with real values (no model): plain and coloured messages
     n4 = ctx.n(2500, 80000) * boost
     for i in range(n4):
@@ -838,9 +1144,15 @@ def _run(ctx, rng, drv, boost, impl):
         colors = rng.chance(50) and literals_lt_free(t) and (bool(args or kwargs) or "<" not in t)
         ctx.case(("real", t, repr(args), repr(sorted(kwargs)), colors), nontrivial=nontrivial(t))
         ctx.stat("real:colors" if colors else "real:plain")
-        exp = res_of(lambda: t.format(*args, **kwargs)) if (args or kwargs) else ("ok", t)
+        lazy4, sub4 = rng.chance(20), rng.chance(12)
+        msg4 = StrSub(t) if sub4 else t
+        exp = res_of(lambda: str.format(msg4, *args, **kwargs)) if (args or kwargs) else ("ok", str(msg4))
         ctx.stat("real:python:" + (exp[0] if exp[0] == "ok" else exp[1]))
-        got = impl.message(t, args, dict(kwargs), colors=colors)
+        if lazy4:
+            ctx.stat("real:lazy")
+        if sub4:
+            ctx.stat("real:str-subclass-message")
+        got = impl.message(msg4, args, dict(kwargs), colors=colors, lazy=lazy4)
         if got != exp:
             key = None
             if colors and (args or kwargs):
@@ -848,8 +1160,8 @@ def _run(ctx, rng, drv, boost, impl):
                 key = F21_KEY if (got == alt and f21_shape(t)) else None
             ctx.violation("logger%s.info(%r, *%r, **%r): record['message'] expected %r, observed %r"
                           % (".opt(colors=True)" if colors else "", t, args, kwargs, exp, got),
-                          {"stream": "real", "rng_state": state, "template": t, "colors": colors, "expected": list(exp),
-                           "observed": list(got)}, key=key)
+                          {"stream": "real", "rng_state": state, "template": t, "colors": colors, "lazy": lazy4, "strsub": sub4,
+                           "expected": list(exp), "observed": list(got)}, key=key)
         if i < 2:
             ctx.sample({"stream": "real", "template": t, "args": repr(args), "kwargs": repr(kwargs), "message": list(got)})
         if i % 16 == 0:   # opt(record=True): `record` is one more keyword; no-argument messages are still formatted
@@ -986,6 +1298,56 @@ def _run(ctx, rng, drv, boost, impl):
                               {"stream": "emitsym", "format": t, "dynamic": dynamic, "colorize": colorize, "raw": raw,
                                "expected": list(py), "observed": list(got)})
 
+    # ---- stream 7 (round 5): HISTORIES through one dynamic-format handler: the template changes from record to
+    #      record, comes back, and more than lru_cache's 64 distinct templates pass; every record must be rendered
+    #      by Python's format_map of ITS OWN template (direct oracle) and as Format.dynRun says (model)
+    for i in range(ctx.n(40, 1000) * boost):
+        pool = []
+        npool = rng.choice([2, 3, 5, 70, 80]) if not rng.chance(50) else rng.range(1, 6)
+        while len(pool) < npool:
+            t = gen_template(rng, "named", SYMKEYS, 0, maxdepth=2, lits=[l for l in LITS if "<" not in l]).replace("!a", "!r")
+            t = markup_free_for_model(t) + ("#%d" % len(pool) if npool > 6 else "")
+            if not ascii_only_digits(t) or any(n.split(".")[0].split("[")[0] in ("message", "level", "exception")
+                                               for _l, n, _s in fields_at(t)):
+                continue
+            pool.append(t)
+        n = rng.range(2, 12) if npool <= 6 else rng.range(npool, npool + 30)
+        seq = [pool[j] if (npool > 6 and j < npool) else rng.choice(pool) for j in range(n)]
+        got7 = run_dynseq(impl, seq)
+        ctx.case(("dynseq", tuple(seq)), nontrivial=True)
+        ctx.stat("dynseq:histories")
+        ctx.stat("dynseq:records", n)
+        if npool > 64:
+            ctx.stat("dynseq:beyond_lru_maxsize")
+        bad7 = judge_dynseq(seq, got7)
+        if bad7 is not None:
+            j, py = bad7
+            ctx.violation("dynamic format, record %d of a history of %d through one handler (templates so far: %d distinct): "
+                          "template %r emitted %r, Python's format_map gives %r"
+                          % (j + 1, n, len(set(seq[:j + 1])), seq[j], got7[j], py),
+                          {"stream": "dynseq", "sequence": seq, "index": j, "expected": list(py), "observed": list(got7[j])})
+        kw = SYMKEYS + ["exception"]
+        lines.append("dyn %s %s" % (",".join(enc(k) for k in kw), " ".join(enc(t) for t in seq)))
+        expect.append(("Format.dynRun", (seq,), "dyn " + " ".join(("ok:" + enc(g[1])) if g[0] == "ok" else ("err:" + g[1]) for g in got7)))
+
+    # ---- stream 8 (round 5): which text emit() hands over – raw / static / dynamic x colorize x coloured call x a
+    #      patcher replacing record["message"] x levels (default, created after the handler, numeric):
+    #      "opt(raw=True) emits the message", a replaced message is never emitted with the stale colours
+    for i in range(ctx.n(300, 4000) * boost):
+        c8 = gen_emitfull(rng)
+        got8, exp8, recmsg, bad8 = run_emitfull(impl, c8)
+        ctx.case(("emitfull",) + tuple(str(c8[k]) for k in sorted(c8)), nontrivial=True)
+        ctx.stat("emitfull:%s%s%s%s:%s" % ("raw" if c8["raw"] else "fmt", "+dyn" if c8["dynamic"] else "",
+                                          "+colorize" if c8["colorize"] else "", "+colors" if c8["colors"] else "", c8["patch"]))
+        if bad8:
+            ctx.violation(bad8, dict(c8, stream="emitfull", expected=["ok", exp8], observed=list(got8)))
+        elif c8["raw"] and c8["colors"] and "<" not in c8["body"]:
+            pass        # a coloured message without any tag: its coloured rendering IS the plain text
+        else:
+            which = ("M" if got8[1] == recmsg else "C") if c8["raw"] else "F"
+            lines.append("efull %d %d %d %d %d" % (c8["raw"], c8["dynamic"], c8["colorize"], c8["colors"], c8["patch"] in ("other", "samelen")))
+            expect.append(("Format.emitFull", (c8["raw"], c8["dynamic"], c8["colorize"], c8["colors"], c8["patch"]), which))
+
     # ---- run the model
     out = drv.run(lines)
     bad = {}
@@ -998,7 +1360,7 @@ def _run(ctx, rng, drv, boost, impl):
         if bad[what] > 3:
             continue
         ctx.broke("correspondence " + what, "input=%r python/impl=%r model=%r" % (payload, py, o))
-        if what in ("Format.prepareFormat", "Format.coloredFormat", "Format.logMessage", "Format.emitText"):
+        if what in ("Format.prepareFormat", "Format.coloredFormat", "Format.logMessage", "Format.emitText", "Format.logCall", "Format.dynRun", "Format.emitFull"):
             # the implementation left the model the theorems of Props/C05 speak about
             ctx.violation("implementation and model disagree on %s%r: implementation %r, model %r" % (what, payload, py, o),
                           {"stream": "model", "what": what, "input": _jsonable(payload), "expected": o, "observed": py},
@@ -1052,8 +1414,9 @@ def _replay(ctx, r, impl):
         if st == "record":
             got = impl.message(t, args, dict(kwargs), record=True)
         else:
-            got = impl.message(t, args, dict(kwargs), colors=r.get("colors", False))
-            exp = list(res_of(lambda: t.format(*args, **kwargs))) if (args or kwargs) else ["ok", t]
+            m0 = StrSub(t) if r.get("strsub") else t
+            got = impl.message(m0, args, dict(kwargs), colors=r.get("colors", False), lazy=bool(r.get("lazy")))
+            exp = list(res_of(lambda: str.format(m0, *args, **kwargs))) if (args or kwargs) else ["ok", str(m0)]
         print("template=%r args=%r kwargs=%r colors=%r" % (t, args, kwargs, r.get("colors")))
     elif st == "markupmsg":
         rng = core.Rng(0)
@@ -1120,6 +1483,37 @@ def _replay(ctx, r, impl):
             impl.logger = saved
         got = list(g)
         print("format=%r dynamic=%r colorize=%r raw=%r" % (r["format"], r.get("dynamic"), r.get("colorize"), r.get("raw")))
+    elif st == "logcall":
+        rng = core.Rng(0)
+        rng.s = r["rng_state"]
+        t, nargs, kws, opts, fail, sub = gen_logcall(rng)
+        g, trace, msg = run_logcall(impl, t, nargs, kws, opts, fail, sub)
+        rec2 = dict(g[1]) if g[0] == "ok" else {"extra": {"q": Sym("record[extra][q]")}}
+        py, forced = logcall_python(t, nargs, kws, opts, fail, msg, rec2)
+        print("logger.opt(%r).info(%s%r, %d positional, keywords %r), failing lazy argument: %r" % (opts, "StrSub " if sub else "", t, nargs, kws, fail))
+        if g[0] == "ok":
+            captured = [k for k in g[1]["extra"] if k != "q"]
+            got = ["ok", g[1]["message"], trace, captured,
+                   "extra holds the evaluated arguments: %r" % all(getattr(g[1]["extra"][k], "_p", None) == k for k in captured)]
+            exp = list(py) + [forced, list(kws) if (opts["capture"] and kws) else [], "extra holds the evaluated arguments: True"]
+        else:
+            got, exp = list(g), list(py)
+    elif st == "dynseq":
+        seq = r["sequence"]
+        g = run_dynseq(impl, seq)
+        j = judge_dynseq(seq, g)
+        print("history of %d templates through one dynamic-format handler" % len(seq))
+        if j is None:
+            print("not reproduced")
+            return 0
+        print("record %d, template %r: implementation %r, Python's format_map %r" % (j[0] + 1, seq[j[0]], g[j[0]], j[1]))
+        print("REPRODUCED")
+        return 1
+    elif st == "emitfull":
+        g, e, _m, bad = run_emitfull(impl, r)
+        print(bad or "visible text as expected: %r" % (e,))
+        print("REPRODUCED" if bad else "not reproduced")
+        return 1 if bad else 0
     elif st == "model":
         line = None
         what, inp = r["what"], r["input"]
